@@ -520,6 +520,29 @@ func runLookalikes() {
 		})
 }
 
+// (b”) repeated and escape-like characters. A reader or writer that "understands" an escape
+// convention (the AIM ECI protocol doubles a backslash and writes \000026 for a designator, URL and
+// C escapes, entities, symbology identifiers) changes exactly the texts that contain such
+// sequences - which class-representative alphabets never do. Every printable ASCII character c in
+// the texts cc, ccc, cccc, a+cc+b, c+x+c, cc+1+cc, and a list of escape-like sequences, without a
+// charset hint and under UTF-8, ISO-8859-1 and Shift_JIS.
+func runRepeatedSpecials() {
+	var texts []string
+	for c := 32; c <= 126; c++ {
+		ch := string(rune(c))
+		texts = append(texts, ch+ch, ch+ch+ch, ch+ch+ch+ch, "a"+ch+ch+"b", ch+"x"+ch, ch+ch+"1"+ch+ch)
+	}
+	texts = append(texts, `\\fileserver\share\report.txt`, `a\\b`, `\n`, `\\n`, `\000026`, `\\000026`, `\000003abc`, `]Q1`, `]Q2\000026x`, `]Q3`, `%25`, `%%`, `%5C%5C`, `%41`, `\u0041`, `\x41`, `&amp;`, `&#65;`, `&&`, `\r\n`, `""`, `\"`, `\'`, `$$`, `{{x}}`, `${x}`, `<<>>`, `\\\\`, `\\\`, `a\`, `\`, `~~`, `~d029`, `^^`, `^FNC1`, "\x1d\x1d", "\x1d", "\x00\x00", "\t\t", "\r\n\r\n")
+	css := []string{"", "UTF-8", "ISO-8859-1", "Shift_JIS"}
+	chk.Range(fmt.Sprintf("(b'') repeated and escape-like characters: every printable ASCII character doubled, tripled, quadrupled and in three mixed texts, and %d escape-like sequences (backslashes, \\000026, symbology identifiers, %%-escapes, entities, control characters) x charset hint {none, UTF-8, ISO-8859-1, Shift_JIS}: write -> read == text [%d texts]", len(texts)-95*6, len(texts)), len(texts),
+		func(i int) string { return fmt.Sprintf("%q", texts[i]) },
+		func(l *mc.Local, i int) {
+			for _, cs := range css {
+				smallCase(l, texts[i], opt{Level: 1, Mask: -1, Charset: cs})
+			}
+		})
+}
+
 // (a”) numeric and alphanumeric texts AT CAPACITY together with a character-set hint. The hint
 // names the encoding of byte segments; digits and the 45 alphanumeric characters select their own
 // modes, which carry no ECI designator, so the capacity is the mode's own (7089 digits in 40-L)
@@ -789,6 +812,7 @@ func main() {
 
 	runSmall()
 	runLookalikes()
+	runRepeatedSpecials()
 	runHintedCapacity()
 	chk.Sample("small", rcase{Sub: "small", Text: "漢\x00", Level: 3, Mask: 5, Version: 1, Charset: "Shift_JIS"})
 
